@@ -33,6 +33,7 @@ def run_rules(mod, repo, run, tier):
     from aylint import tracer as _tr, fde as _fde
     _tr.TOUCHED.clear()
     _fde.TOUCHED.clear()
+    common.TIER[0] = tier
     mod.check(repo, run, tier)
 
 
